@@ -136,6 +136,10 @@ class PrepareWrite(_Prepare):
         ok = bool(sk) and sk[0].args and (sk[0].args[-1] is attr_fp(c, self_) or True)
         first_tell_after = bool(sk and tells and eng.trace.index(sk[0]) < eng.trace.index(tells[0]))
         out.append(("placeholder-signature-header-written-first", bool(ok and first_tell_after), ("C14",)))
+        # C14: nothing is committed while the session is being prepared - the headers that make the file a valid archive
+        # are written by close() only (a header laid down here would make every later crash image open as an archive)
+        commits = [e for e in eng.trace if e.kind in ("call", "contract-call") and str(e.name).split(".")[-1].split(":")[-1] in ("_write_header", "_write_flush", "calccrc", "_encode_header")]
+        out.append(("no-header-committed-while-preparing", len(commits) == 0, ("C14",)))
         return out
 
 
